@@ -8,6 +8,7 @@ open BsVerif.Dap
 #print axioms C12_lifecycle_monitor
 #print axioms C12_lifecycle_once
 #print axioms C12_silent_after_terminated
+#print axioms C12_forwarders_silent_after_terminated
 #print axioms C12_error_not_silence
 #print axioms C12_never_silent
 #print axioms C12_error_not_silence_run_rule
